@@ -108,23 +108,24 @@ def fixed_kernels():
     t2 = B.let(CallK(inner, [b, t0]))
     t3 = B.let(Bin("-", t1, t2))
     ks.append(B.done(t3))
-    # three levels
-    x, y = Arg("a", I64), Arg("b", I64)
-    H1 = Builder("leafq", [("a", I64), ("b", I64)], never_inline=False)
+    # three levels (light arithmetic: the subject is the attribution, not the multiplier)
+    x, y = Arg("a", I32), Arg("b", I32)
+    H1 = Builder("leafw", [("a", I32), ("b", I32)], never_inline=False)
     w0 = H1.let(Bin("%", x, y))
     w1 = H1.let(Bin("+", w0, x))
     leaf = H1.done(w1)
-    H2 = Builder("midq", [("a", I64), ("b", I64)], never_inline=False)
-    m0 = H2.let(Bin("*", x, y))
+    H2 = Builder("midw", [("a", I32), ("b", I32)], never_inline=False)
+    m0 = H2.let(Bin("-", x, y))
     m1 = H2.let(CallK(leaf, [m0, y]))
-    m2 = H2.let(Bin("-", m1, x))
+    m2 = H2.let(Bin("+", m1, x))
     mid = H2.done(m2)
     helpers += [leaf, mid]
-    B = Builder("callerb", [("a", I64), ("b", I64)], label="caller-nested")
+    B = Builder("callerb", [("a", I32), ("b", I32)], label="caller-nested")
     t0 = B.let(CallK(mid, [x, y]))
-    t1 = B.let(Bin("/", t0, y))
-    t2 = B.let(CallK(leaf, [t1, x]))
-    ks.append(B.done(t2))
+    t1 = B.let(Un("-", t0))
+    t2 = B.let(CallK(leaf, [y, x]))
+    t3 = B.let(Bin("+", t1, t2))
+    ks.append(B.done(t3))
     # callee with an array access
     v = Arg("v", ARR(I64))
     H3 = Builder("geta", [("v", ARR(I64)), ("i", I64)], never_inline=False)
@@ -151,20 +152,29 @@ def random_kernels(seed, count):
             params.append(("v", ARR(at)))
         B = Builder("rnd%d" % n, params, family="random", label="random")
         pool = {I32.name: [Arg("a", I32), Arg("b", I32)], I64.name: [Arg("c", I64), Arg("d", I64)]}
+        cheap = {I32.name: list(pool[I32.name]), I64.name: list(pool[I64.name])}
         last = None
         for _ in range(r.randint(4, 8)):
             t = r.choice([I32, I64])
             c = r.random()
             pick = lambda ty: r.choice(pool[ty.name])
+            light = lambda ty: r.choice(cheap[ty.name])     # arguments and results of cheap operations
+            heavy = False
             if with_arr and c < 0.18:
-                e = ArrGet(Arg("v", ARR(at)), pick(I64))
+                e = ArrGet(Arg("v", ARR(at)), light(I64))
             elif with_arr and c < 0.28:
-                B.set(Arg("v", ARR(at)), pick(I64), pick(at))
+                B.set(Arg("v", ARR(at)), light(I64), pick(at))
                 continue
+            elif c < 0.40:
+                e = Bin(r.choice(["+", "-"]), pick(t), pick(t))
             elif c < 0.62:
-                e = Bin(r.choice(["+", "-", "*", "/", "%"]), pick(t), pick(t))
+                # multiplier/divider terms are kept one level deep (solver cost), 64-bit ones rare
+                tt = I32 if r.random() < 0.8 else I64
+                t = tt
+                e = Bin(r.choice(["*", "/", "%"]), light(tt), light(tt))
+                heavy = True
             elif c < 0.76:
-                e = Bin(r.choice(["<<", ">>", ">>>"]), pick(t), pick(I32))
+                e = Bin(r.choice(["<<", ">>", ">>>"]), pick(t), light(I32))
             elif c < 0.86:
                 e = Un("-", pick(t))
             elif c < 0.93:
@@ -173,6 +183,8 @@ def random_kernels(seed, count):
                 e = Bin(r.choice(["&", "|", "^"]), pick(t), pick(t))
             last = B.let(e)
             pool[last.ty.name].append(last)
+            if not heavy and len(cheap[last.ty.name]) < 4 and isinstance(e, (Conv, Un)) is False and e.kids and all(isinstance(q, Arg) and q.name in "abcd" for q in e.kids) and getattr(e, "op", "") in ("+", "-", "&", "|", "^"):
+                cheap[last.ty.name].append(last)
         if last is None:
             last = B.let(Bin("+", Arg("a", I32), Arg("b", I32)))
         ks.append(B.done(last))
@@ -270,7 +282,7 @@ def analyse(job):
                 alts.append(z3.And(p.pc(), z3.Or(ff != BV(tfid, 32), fl != BV(tline, 32), fk != kd)))
             site = {"function": fsym, "call_offset": off, "return_offset": ret_off, "table": [list(f) for f in frames],
                     "table_entry": meta["entry"], "inlined_depth": meta["inlined_depth"], "kinds": sorted(kinds), "paths": len(ps)}
-            r, m = verd.check("site-%s+%#x" % (fsym[5:], off), base + [z3.Or(*alts)])
+            r, m = verd.check("site-%s+%#x" % (fsym[5:], off), base + [z3.Or(*alts)], abstract=True)
             site["result"] = r
             res["queries"].append({"kind": "site", "site": "%s+%#x" % (fsym, off), "result": r})
             # reference lines that reach this site (for the sample): evaluate on a witness
@@ -304,7 +316,7 @@ def analyse(job):
                 res["candidates"].append(cand)
             res["sites"].append(site)
         if rets:
-            r, m = verd.check("return-paths", base + [z3.Or(*[p.pc() for p in rets]), fk != none])
+            r, m = verd.check("return-paths", base + [z3.Or(*[p.pc() for p in rets]), fk != none], abstract=True)
             res["queries"].append({"kind": "return", "result": r})
             if r == "sat":
                 m2, av2, out2 = real_run([z3.Or(*[p.pc() for p in rets]), fk != none])
@@ -341,6 +353,7 @@ def analyse(job):
         res["status"] = "unsupported"
         res["reason"] = str(e)
     res["verdicts"] = verd.summary()
+    res["verdict_log"] = verd.log
     res["wall_s"] = round(time.time() - t0, 2)
     return res
 
